@@ -28,6 +28,9 @@ def pool(seed: int) -> list[dict]:
     fig = g.figure()
     fig["title"] = {"text": ["T fig"], "text_color": "navy"}
     fig.pop("kind", None)
+    # texts of graded length around the width of their column: some cell is always close to a wrap threshold, so that a width
+    # measured with another document's font or size moves a page break
+    graded = {"cols": ["id", "t"], "rows": [[f"#{i}#", ("mean sd pct ci " * 8)[: 48 + i].rstrip() + "."] for i in range(14)]}
     hdr = {"text": ["H id", "H a", "H b"]}
     bmat = [["single", "", "dotted"], ["", "single", ""], ["dashed", "", "single"], ["", "", ""]]
     return [
@@ -65,6 +68,10 @@ def pool(seed: int) -> list[dict]:
         {"df": f3, "body": {"border_top": bmat, "border_bottom": bmat}, "page": {}},
         {"df": f3, "body": {"border_top": bmat, "border_bottom": bmat}, "footnote": {"text": ["F closes"], "as_table": True},
          "page": {"border_last": "", "border_first": "dotted"}},
+        # 15/16/17: one frame, tight pages, measured in Times 10pt, Times 9.5pt and Courier New 14pt
+        {"df": graded, "body": {"text_font_size": 10}, "page": {"nrow": 6}},
+        {"df": graded, "body": {"text_font_size": 9.5}, "page": {"nrow": 6}},
+        {"df": graded, "body": {"text_font": 9, "text_font_size": 14}, "page": {"nrow": 6}},
     ]
 
 
